@@ -25,6 +25,8 @@ fn value_pool() -> Vec<String> {
     vec![
         "".into(), "x".into(), "xy".into(), "x\0".into(), "xyz".into(), "X".into(), "é".into(), " x".into(),
         hex(&[1u8; 32]), "y".into(),
+        // a value equal to a tag name; 64-byte values that differ only in letter case
+        "e".into(), "p".into(), hex(&[0xab; 32]), hex(&[0xab; 32]).to_uppercase(),
     ]
 }
 
